@@ -99,7 +99,7 @@ macro_rules! impl_set_all_fxn_s {
     {
       fn compile(&self, ctx: &mut CompileCtx) -> MResult<Register> {
         let name = format!("{}<{}{}{}>", stringify!($struct_name), T::as_value_kind(), naMatrix::<T, R1, C1, S1>::as_na_kind(), IxVec::as_na_kind());
-        compile_binop!(name, self.sink, self.ixes, self.source, ctx, FeatureFlag::Builtin(FeatureKind::Assign));
+        compile_binop!(name, self.sink, self.source, self.ixes, ctx, FeatureFlag::Builtin(FeatureKind::Assign));
       }
     }};}
 
@@ -193,7 +193,7 @@ macro_rules! impl_assign_fxn_s {
     {
       fn compile(&self, ctx: &mut CompileCtx) -> MResult<Register> {
         let name = format!("{}<{}{}>", stringify!($struct_name), T::as_value_kind(), naMatrix::<T, R, C, S>::as_na_kind());
-        compile_binop!(name, self.sink, self.ixes, self.source, ctx, FeatureFlag::Builtin(FeatureKind::Assign));
+        compile_binop!(name, self.sink, self.source, self.ixes, ctx, FeatureFlag::Builtin(FeatureKind::Assign));
       }
     }};}
 
